@@ -15,7 +15,7 @@ from .facts import FactsDB
 VERIF = os.path.dirname(os.path.dirname(os.path.abspath(__file__)))
 REPO = os.environ.get("VERIF_REPO_ROOT", "/repo")
 TOOL = os.path.join(VERIF, "build", "cdsfacts")
-CACHE = os.path.join(VERIF, "build", "cache")
+CACHE = os.environ.get("VERIF_CACHE") or os.path.join(VERIF, "build", "cache")
 RESOURCE_DIR = "/usr/lib/llvm-14/lib/clang/14.0.6"
 SYS_PREFIX = "/root/miniconda/include"   # gtest / boost headers used by the unit tests
 
